@@ -13,7 +13,7 @@ import sqlite3
 
 INT_COLS = ["a", "b", "c", "id"]
 COLS = INT_COLS + ["s"]
-MAIN_TABLES = ["t", "u", "v", "orders", "cust"]
+MAIN_TABLES = ["t", "u", "v", "orders", "cust", "t2", "t3"]     # t2 / t3: real tables named like the numbered alias of a re-joined t
 SCHEMA_TABLES = {"s": ["w"]}          # ATTACH ':memory:' AS "s";  "s"."w"
 N_DBS = 2
 SUB_VALUE = 2          # value of the shared family's scalar sub-query SELECT "x" FROM "u" (see dbs())
@@ -77,7 +77,7 @@ def execute(db, sql):
 # ----------------------------------------------------------------------------------------------
 CMP = {"eq": "=", "ne": "<>", "gt": ">", "gte": ">=", "lt": "<", "lte": "<=", "like": "LIKE", "not_like": "NOT LIKE",
        "glob": "GLOB"}
-ARITH = {"add": "+", "sub": "-", "mul": "*", "div": "/"}
+ARITH = {"add": "+", "sub": "-", "mul": "*", "div": "/", "lshift": "<<", "rshift": ">>"}
 JOIN = {"inner": "INNER JOIN", "left": "LEFT OUTER JOIN", "right": "RIGHT OUTER JOIN", "outer": "FULL OUTER JOIN",
         "left_outer": "LEFT OUTER JOIN", "right_outer": "RIGHT OUTER JOIN", "full_outer": "FULL OUTER JOIN",
         "cross": "CROSS JOIN"}
